@@ -526,7 +526,7 @@ def run(chk: core.Check) -> int:
         else:
             raise core.HarnessError("Lean driver not built")
         rng = chk.rng
-        n = 650 if chk.quick else 8000
+        n = 520 if chk.quick else 8000
         scenarios = [gen_scenario(rng, i) for i in range(n)]
         # directed stream: the regions of the known findings and the statement's corners, every run
         directed = []
